@@ -76,7 +76,7 @@ def features(graph):
 
 
 EXCLUDING = ('shared_cand', 'switch_in_rec', 'oneof_in_rec', 'rec_overlap',
-             'rec_outside_reader', 'rec_bad', 'rec_in_cand')
+             'rec_outside_reader', 'rec_bad')
 
 
 def excluding_features(graph):
